@@ -280,6 +280,8 @@ DoneOK(d) ==
   \* --- C04: once the time limit has been exceeded (an injected sleep longer than the limit during
   \*     pass c.sleep_iter) the solve stops at the next iteration boundary at the latest
   /\ (P("C04") /\ c.sleep_iter >= 0) => d.iterations <= c.sleep_iter + 1
+  \* --- C03 / C20: the solution object repeats the final figures of info (the footer prints info's): time and count
+  /\ (P("C03") \/ P("C20")) => (d.time_same /\ d.iters_same)
   \* --- C03: vector lengths are the user's n and m
   /\ P("C03") => d.lens = <<d.n, d.m, d.m>>
   \* --- C02: objective values are NaN exactly for infeasibility verdicts
